@@ -1,4 +1,93 @@
 import AioModel.C12
 import AioModel.C12Spec
+import AioProps.C12Lemmas
+import AioProps.C12Bound
+/-!
+# C12 — property theorems about the reader model (`AioModel/C12.lean`)
+
+`Reader.core` is the reader without the two items that *do* depend on how the input was cut
+(`len(_payload_fragments)` and the transport's paused flag): parser state, inflate context,
+`_partial`, `_tail`, the latched error, every message delivered, queue size.
+-/
 namespace Aio.C12
+open Aio
+
+variable {Z : Inflater}
+
+/-- Feeding `a` and then `b` leaves the reader (messages delivered, error, parser state, tail,
+queue size — everything but the fragment count and the pause flag) exactly where feeding
+`a ++ b` in one call leaves it.  All configurations, all states, all byte strings. -/
+theorem feed_append (c : Cfg) (r : Reader Z) (a b : Bytes) :
+    (feed c (feed c r a) b).core = (feed c r (a ++ b)).core := by
+  rw [feed_core, feed_core, feed_core]
+  generalize r.core = k
+  unfold feedK
+  by_cases h : k.exc.isSome
+  · simp [h]
+  · simp only [h, Bool.false_eq_true, if_false]
+    have := loopK_append c (fuelFor (k.tail ++ a)) k.k (k.tail ++ a) b (need_le_fuelFor _ _)
+    rw [List.append_assoc] at this
+    rw [this]; rfl
+
+/-- Segmentation independence: for every non-empty list of segments, feeding them one by one
+gives the same messages, the same error (or none), the same parser state and the same retained
+bytes as feeding their concatenation in a single call. -/
+theorem segmentation_independent (c : Cfg) : ∀ (segs : List Bytes) (r : Reader Z) (s : Bytes),
+    (feedAll c r (s :: segs)).core = (feed c r (s :: segs).flatten).core := by
+  intro segs
+  induction segs with
+  | nil => intro r s; simp [feedAll]
+  | cons t rest ih =>
+    intro r s
+    have h1 : feedAll c r (s :: t :: rest) = feedAll c (feed c r s) (t :: rest) := rfl
+    rw [h1, ih (feed c r s) t, feed_append]
+    simp
+
+/-- …and from the initial state also for the empty list (nothing fed = empty input fed). -/
+theorem segmentation_independent_init (c : Cfg) (segs : List Bytes) :
+    (feedAll c ({} : Reader Z) segs).core = (feed c ({} : Reader Z) segs.flatten).core := by
+  cases segs with
+  | nil => rfl
+  | cons s t => exact segmentation_independent c t {} s
+
+example : (feedAll (Z := toyInflater) ⟨0, false, true, 100⟩ {} [[0x81], [0x02, 0x68], [0x69]]).p.k.msgs
+    = [.text [0x68, 0x69]] := by decide +kernel
+
+/-- The error latch: once `feed_data` has failed, every later call returns at once and changes
+nothing — no message is delivered after the violation, whatever arrives. -/
+theorem error_latched (c : Cfg) (r : Reader Z) (h : r.exc.isSome) :
+    ∀ ds : List Bytes, feedAll c r ds = r := by
+  intro ds
+  induction ds with
+  | nil => rfl
+  | cons d ds ih =>
+    have : feed c r d = r := by simp [feed, h]
+    simp [feedAll, this, ih]
+
+example : (feed (Z := toyInflater) ⟨0, false, true, 100⟩ {} [0x83, 0x00]).exc = some (.ws 1002) := by
+  decide +kernel
+
+/-- Within one call nothing is delivered after the violation either: messages only ever grow by
+appending, and the call that fails returns the messages delivered before the failing frame
+(`loop` stops at the first `fail`) — the delivered list of a failed reader is frozen. -/
+theorem delivered_frozen_after_error (c : Cfg) (r : Reader Z) (d : Bytes)
+    (h : (feed c r d).exc.isSome) (ds : List Bytes) :
+    (feedAll c (feed c r d) ds).p.k.msgs = (feed c r d).p.k.msgs := by
+  rw [error_latched c _ h]
+
+/-- Bounded retention: in every state reachable from the initial one by any sequence of
+`feed_data` calls (any bytes, any segmentation) with no error so far, the bytes kept for the
+incomplete frame/message (`_tail` + fragments + `_partial`) are at most `max_msg_size + 125`. -/
+theorem retained_bounded (c : Cfg) (hmax : c.maxMsgSize ≠ 0) (segs : List Bytes) :
+    (feedAll c ({} : Reader Z) segs).exc = none →
+    retained (feedAll c ({} : Reader Z) segs) ≤ c.maxMsgSize + 125 := by
+  intro hexc
+  exact InvR_retained c hmax _ (feedAll_InvR c hmax segs {} (InvR_init c hmax)) hexc
+
+/-- Every data message put on the queue is at most `max_msg_size` long — also when it was
+inflated: for **any** inflate function (no assumption on zlib) a longer result is rejected. -/
+theorem delivered_bounded (c : Cfg) (hmax : c.maxMsgSize ≠ 0) (segs : List Bytes) :
+    ∀ m ∈ (feedAll c ({} : Reader Z) segs).p.k.msgs, m.size ≤ max c.maxMsgSize 125 := by
+  exact (feedAll_InvR c hmax segs {} (InvR_init c hmax)).2
+
 end Aio.C12
